@@ -144,6 +144,32 @@ query — before and independently of `_answer_question`.  Not modelled: `known`
 def responderHears (canAnswer : Bool) (h : History) (q : Question) (now : Int) (known : List Rec) : History :=
   if canAnswer && !q.unique then h.add lower q now known else h
 
+/-- one packet of a (possibly multi-packet, TC) query as `async_response` sees it: whether it is a probe (`msg.is_probe()`: it
+carries authority records), its questions — each with whether the host has an answer strategy for it (`_get_answer_strategies`
+is non-empty: the registry's business, C03) — and every record `msg.answers()` yields (answer, authority and additional sections) -/
+structure HeardPacket where
+  probe : Bool
+  questions : List (Question × Bool)
+  records : List Rec
+  deriving Repr, Inhabited
+
+/-- `DNSRRSet(answers).lookup_set()`: the records as a set (first occurrence kept) -/
+def dedupRecs : List Rec → List Rec
+  | [] => []
+  | r :: rs => r :: (dedupRecs rs).filter (fun x => !(r.beq lower x))
+
+/-- `answers.extend(msg.answers())` for every packet that is **not a probe** (`query_handler.py:321-325`): a probe's authority
+records are what the prober proposes, not what it knows -/
+def heardKnown (pkts : List HeardPacket) : List Rec :=
+  dedupRecs lower ((pkts.filter (fun p => !p.probe)).flatMap (·.records))
+
+/-- `async_response` as far as the question history goes, for a whole assembled query: every question of every packet the host
+has a strategy for is recorded — **that question**, not the message's first — if it is QM, with the union of the known answers
+of the non-probe packets, at `now` (`msgs[-1].now`: the arrival time of the last packet).  With no strategy at all the function
+returns early; the fold then changes nothing either. -/
+def hearQuery (h : History) (pkts : List HeardPacket) (now : Int) : History :=
+  (pkts.flatMap (·.questions)).foldl (fun h qc => responderHears lower qc.2 h qc.1 now (heardKnown lower pkts)) h
+
 /-! ### service-info lookup: `_add_question_with_known_answers`, `_generate_request_query` -/
 
 def addQuestion (cache : List Rec) (h : History) (now : Int) (qu : Bool) (name : String) (type cls : Nat)
